@@ -105,8 +105,10 @@ pub struct OrchardParty {
 
 pub struct World {
     pub secp: secp256k1::Secp256k1<secp256k1::All>,
-    pub t_sk: [secp256k1::SecretKey; 2],
-    pub t_pk: [secp256k1::PublicKey; 2],
+    /// Transparent keys: 0,1 = P2PKH coin of input 0/1; 2,3 = 1-of-1 multisig of input 0/1;
+    /// 4..7 = 2-of-3 multisig of input 0; 7..10 = 2-of-3 multisig of input 1.
+    pub t_sk: Vec<secp256k1::SecretKey>,
+    pub t_pk: Vec<secp256k1::PublicKey>,
     /// 0 = spender, 1 and 2 = recipients.
     pub sap: Vec<SaplingParty>,
     pub orc: Vec<OrchardParty>,
@@ -118,14 +120,8 @@ pub fn world() -> &'static World {
     static W: OnceLock<World> = OnceLock::new();
     W.get_or_init(|| {
         let secp = secp256k1::Secp256k1::new();
-        let t_sk = [
-            secp256k1::SecretKey::from_slice(&[0x31; 32]).unwrap(),
-            secp256k1::SecretKey::from_slice(&[0x32; 32]).unwrap(),
-        ];
-        let t_pk = [
-            secp256k1::PublicKey::from_secret_key(&secp, &t_sk[0]),
-            secp256k1::PublicKey::from_secret_key(&secp, &t_sk[1]),
-        ];
+        let t_sk: Vec<secp256k1::SecretKey> = (0u8..10).map(|k| secp256k1::SecretKey::from_slice(&[0x31 + k; 32]).unwrap()).collect();
+        let t_pk: Vec<secp256k1::PublicKey> = t_sk.iter().map(|sk| secp256k1::PublicKey::from_secret_key(&secp, sk)).collect();
         let sap = (0u8..3)
             .map(|k| {
                 let extsk = sapling::zip32::ExtendedSpendingKey::master(&[0x40 + k; 32]);
@@ -157,8 +153,47 @@ pub struct TCoin {
     pub txid: [u8; 32],
     pub n: u32,
     pub value: u64,
+    /// scriptPubKey of the coin (P2PKH or P2SH).
     pub script: Vec<u8>,
-    pub key: usize,
+    /// 0 = P2PKH, 1 = P2SH 1-of-1 multisig, 2 = P2SH 2-of-3 multisig.
+    pub kind: u8,
+    /// Indices into `World::t_pk` of the keys in the script (one for P2PKH), in script order.
+    pub keys: Vec<usize>,
+    /// Signatures the script demands.
+    pub required: usize,
+    /// Redeem script (empty for P2PKH): OP_m <pk>.. OP_n OP_CHECKMULTISIG.
+    pub redeem: Vec<u8>,
+}
+
+/// m-of-n bare multisig script, written out by hand.
+pub fn multisig_script(m: usize, pks: &[[u8; 33]]) -> Vec<u8> {
+    let mut s = vec![0x50 + m as u8];
+    for pk in pks {
+        s.push(33);
+        s.extend_from_slice(pk);
+    }
+    s.push(0x50 + pks.len() as u8);
+    s.push(0xae);
+    s
+}
+
+fn push_len(n: usize) -> usize {
+    // direct push up to 75 bytes, OP_PUSHDATA1 up to 255
+    if n <= 75 {
+        1 + n
+    } else {
+        2 + n
+    }
+}
+
+impl TCoin {
+    /// Documented pre-signing size of the input that spends this coin (ZIP 317 input size with
+    /// signatures at their maximum of 72 DER bytes + 1 hash-type byte): outpoint 36, script
+    /// length, scriptSig, sequence 4.
+    pub fn input_size_bound(&self) -> usize {
+        let sig = if self.kind == 0 { push_len(73) + push_len(33) } else { 1 + self.required * push_len(73) + push_len(self.redeem.len()) };
+        36 + if sig < 253 { 1 } else { 3 } + sig + 4
+    }
 }
 
 #[derive(Clone, Debug)]
@@ -252,23 +287,55 @@ pub fn orchard_cross_address(h: u32) -> bool {
     epoch(h) < Epoch::Nu6_3
 }
 
+/// The padding alphabet covers every field combination of `BundlePadding`:
+/// `bundle_required` in {false, true} x `pad_to_minimum` in {None, Some(1), Some(0), Some(3)}.
+/// 0 = DEFAULT, 1 = UNPADDED, 2 = Some(0), 3 = Some(3); 4..=7 the same with `bundle_required`.
+pub fn pad_fields(p: u8) -> (bool, Option<u8>) {
+    (p >= 4, [None, Some(1), Some(0), Some(3)][(p % 4) as usize])
+}
+
+pub fn pools_anchored(c: &Case) -> [bool; 3] {
+    // anchors: 0 = used pools only, 1 = all three, 2 = used + Orchard, 3 = used + Ironwood
+    [c.anchors == 1 || c.s != [0, 0], c.anchors == 1 || c.anchors == 2 || c.o != [0, 0], c.anchors == 1 || c.anchors == 3 || c.i != [0, 0]]
+}
+
 /// Reference padding model, from the documentation of the bundle types:
 /// Sapling transactional bundles hold at least 1 spend and 2 outputs when anything was requested;
 /// Orchard-family bundles hold max(spends, outputs) actions (spends + outputs when cross-address
-/// transfers are disabled), padded to 2 (DEFAULT) or 1 (UNPADDED), and nothing when empty.
+/// transfers are disabled), padded to `pad_to_minimum` (None = 2); an empty bundle is produced
+/// only when `bundle_required` (then at least 1 action), and only by a builder that exists: the
+/// pool's anchor is configured (the deferred-anchor builder always has both pools), the height
+/// has the pool, and the transaction version carries it.
 pub fn predicted_shape(c: &Case) -> (usize, usize, usize, usize) {
+    predicted_shape_opt(c, true)
+}
+
+/// `respect_version = false`: the shape the padding policy calls for when the version's ability
+/// to carry the pools is ignored (used to recognise requests that cannot be satisfied).
+pub fn predicted_shape_opt(c: &Case, respect_version: bool) -> (usize, usize, usize, usize) {
     let (s_in, s_out) = (c.s[0] as usize, c.s[1] as usize);
     let (sap_sp, sap_out) = if s_in + s_out > 0 { (s_in.max(1), s_out.max(2)) } else { (0, 0) };
-    let fam = |n_in: usize, n_out: usize, cross: bool, pad: u8| {
+    let fam = |n_in: usize, n_out: usize, cross: bool, pad: u8, exists: bool| {
+        let (required, min) = pad_fields(pad);
         let req = if cross { n_in.max(n_out) } else { n_in + n_out };
-        if req == 0 {
+        let mut min_actions = min.map_or(2, usize::from);
+        if required {
+            min_actions = min_actions.max(1);
+        }
+        if !exists {
             0
+        } else if required || req > 0 {
+            req.max(min_actions)
         } else {
-            req.max(if pad == 0 { 2 } else { 1 })
+            0
         }
     };
-    let orc = fam(c.o[0] as usize, c.o[1] as usize, orchard_cross_address(c.h), c.pad[0]);
-    let iron = fam(c.i[0] as usize, c.i[1] as usize, true, c.pad[1]);
+    let anchored = pools_anchored(c);
+    let v = super::oracle::effective_version(c);
+    let orc_exists = if c.route == 2 { true } else { anchored[1] && c.h >= NU5 && (v >= 5 || !respect_version) };
+    let iron_exists = if c.route == 2 { true } else { anchored[2] && c.h >= NU6_3 && (v >= 6 || !respect_version) };
+    let orc = fam(c.o[0] as usize, c.o[1] as usize, orchard_cross_address(c.h), c.pad[0], orc_exists);
+    let iron = fam(c.i[0] as usize, c.i[1] as usize, true, c.pad[1], iron_exists);
     (sap_sp, sap_out, orc, iron)
 }
 
@@ -281,6 +348,8 @@ pub fn zip317_fee(t_in_bytes: usize, t_out_bytes: usize, sap_sp: usize, sap_out:
 /// Upper bound of a P2PKH input: outpoint 36 + script length 1 + (1+73 signature push, 1+33 key
 /// push) + sequence 4.
 pub const P2PKH_INPUT_MAX: usize = 36 + 1 + 108 + 4;
+
+const _: () = assert!(P2PKH_INPUT_MAX == 149);
 
 fn sapling_path(sibling: sapling::Node, pos: u64) -> sapling::MerklePath {
     let mut auth = vec![sibling];
@@ -411,14 +480,36 @@ pub fn request(c: &Case) -> Request {
     let n_in = (c.t[0] + c.s[0] + c.o[0] + c.i[0]) as usize;
     let n_out = (c.t[1] + c.s[1] + c.o[1] + c.i[1]) as usize;
     // ---- predicted fee of the final shape
-    let (sap_sp, sap_out, orc, iron) = predicted_shape(c);
+    // funding symbol 4: exact for the fee the builder would charge if it (wrongly) counted a
+    // required bundle the requested version cannot carry
+    let (sap_sp, sap_out, orc, iron) = predicted_shape_opt(c, c.fund != 4);
     let t_out_bytes: usize = (0..c.t[1] as usize).map(|k| 8 + 1 + if k == 1 { 23 } else { 25 }).sum();
-    let fee = if c.fee == 0 { zip317_fee(c.t[0] as usize * P2PKH_INPUT_MAX, t_out_bytes, sap_sp, sap_out, orc, iron) } else { FIXED_FEE };
+    let mut t_in: Vec<TCoin> = (0..c.t[0] as usize)
+        .map(|k| {
+            let kind = c.tk[k];
+            let keys: Vec<usize> = match kind {
+                0 => vec![k],
+                1 => vec![2 + k],
+                _ => (4 + 3 * k..7 + 3 * k).collect(),
+            };
+            let pks: Vec<[u8; 33]> = keys.iter().map(|j| w.t_pk[*j].serialize()).collect();
+            let (required, redeem) = match kind {
+                0 => (1, vec![]),
+                1 => (1, multisig_script(1, &pks)),
+                _ => (2, multisig_script(2, &pks)),
+            };
+            let script = if kind == 0 { p2pkh_script(&hash160(&pks[0])) } else { p2sh_script(&hash160(&redeem)) };
+            TCoin { txid: [0x11 * (k as u8 + 1); 32], n: k as u32 + 3, value: 0, script, kind, keys, required, redeem }
+        })
+        .collect();
+    let t_in_bytes: usize = t_in.iter().map(|c| c.input_size_bound()).sum();
+    let fee = if c.fee == 0 { zip317_fee(t_in_bytes, t_out_bytes, sap_sp, sap_out, orc, iron) } else { FIXED_FEE };
     let delta: i128 = match c.fund {
         0 => 0,
         1 => -1,
         2 => 1,
-        _ => fee as i128,
+        3 => fee as i128,
+        _ => 0,
     };
     // ---- values
     let slots: Vec<usize> = (0..c.t[0] as usize).chain((0..c.s[0] as usize).map(|k| 2 + k)).chain((0..c.o[0] as usize).map(|k| 4 + k)).chain((0..c.i[0] as usize).map(|k| 6 + k)).collect();
@@ -437,12 +528,9 @@ pub fn request(c: &Case) -> Request {
     let mut iv = in_vals.into_iter();
     let mut ov = out_vals.into_iter();
     // ---- inputs
-    let t_in: Vec<TCoin> = (0..c.t[0] as usize)
-        .map(|k| {
-            let h = hash160(&w.t_pk[k].serialize());
-            TCoin { txid: [0x11 * (k as u8 + 1); 32], n: k as u32 + 3, value: iv.next().unwrap(), script: p2pkh_script(&h), key: k }
-        })
-        .collect();
+    for coin in t_in.iter_mut() {
+        coin.value = iv.next().unwrap();
+    }
     let s_vals: Vec<u64> = (0..c.s[0]).map(|_| iv.next().unwrap()).collect();
     let o_vals: Vec<u64> = (0..c.o[0]).map(|_| iv.next().unwrap()).collect();
     let i_vals: Vec<u64> = (0..c.i[0]).map(|_| iv.next().unwrap()).collect();
